@@ -14,7 +14,7 @@ rule, chain walk): summarising them needs loop invariants; those changes are NOT
 """
 import hashlib, json, os, re
 from .. import flow, proto, alpha, lts, closed
-from ..facts import op_place, op_const, callee_def, AnchorMissing
+from ..facts import op_place, op_const, const_int, callee_def, AnchorMissing
 from ..common import strip_generics, PC, macro_names
 from . import c01
 
@@ -168,6 +168,7 @@ def compute_surface(F):
     S["stream"]["thresholds"] = thresholds(F, sig_fns)
     S["stream"]["arith"] = arith(F, sig_fns)
     S["stream"]["skeleton"] = skeleton(F, sig_fns)
+    S["stream"]["literals"] = literals(F, sig_fns)
     # ---- closed forms -------------------------------------------------------------------------------
     for d in leaves:
         try:
@@ -390,6 +391,55 @@ def arith(F, fns):
     return [[list(k), v] for k, v in sorted(cnt.items(), key=lambda kv: repr(kv[0]))]
 
 
+_HINT = re.compile(r"(with_capacity|reserve|reserve_exact|shrink_to|with_capacity_in)$")
+
+
+def literals(F, fns):
+    """Global multiset of integer constants (value >= 2 or negative) used as plain values in the given functions: assigned,
+    stored into a field or an aggregate, passed to a call, selected as one arm of a conditional value.  `arith` sees
+    constants next to an operator and `thresholds` constants in comparisons; this sees the rest — a chain-length bound
+    passed as a literal instead of the stored parameter, a symbol number substituted for a computed one.  Keyed by value
+    only.  Not counted: arguments of capacity hints, formatting and assertions, integer-method calls already in `arith`,
+    values that only feed an assertion, 0 and 1 (initialisers, flags, steps)."""
+    from collections import Counter
+    cnt = Counter()
+
+    def lit(op):
+        k = op_const(op)
+        if k is None or not isinstance(k, dict) or "ty" not in k or k["ty"] in ("bool", "char") or not re.match(r"^[ui](8|16|32|64|128|size)$", k["ty"]):
+            return None
+        v = const_int(k)
+        return v if v is not None and (v >= 2 or v < 0) else None
+    for d in fns:
+        b = F.bodies[d]
+        for bb in sorted(b.normal_blocks()):
+            for st in b.stmts(bb):
+                if st.get("k") != "assign" or any(m in _ASSERT_MACROS for m in macro_names(st.get("exp"))):
+                    continue
+                r = st["r"]
+                ops = [r["op"]] if r.get("k") in ("use", "cast") else (r.get("ops", []) if r.get("k") == "agg" else [])
+                if not ops:
+                    continue
+                if not st["p"]["p"] and _feeds_only_assert(b, st["p"]["l"]):
+                    continue
+                for o in ops:
+                    v = lit(o)
+                    if v is not None:
+                        cnt[v] += 1
+            t = b.term(bb)
+            if t["k"] == "call" and not any(x in _ASSERT_MACROS for x in macro_names(t.get("exp"))):
+                n = strip_generics(callee_def(t))
+                if _LOGGING.search(n) or _HINT.search(n) or re.search(r"core::fmt::rt::|fmt::Arguments", n) or _panics(b, bb):
+                    continue
+                if _NUM_METHODS.search(n) and re.search(r"(^|::)(core|std)::|num::|cmp::", n):
+                    continue
+                for a in t["args"]:
+                    v = lit(a)
+                    if v is not None:
+                        cnt[v] += 1
+    return [[k, v] for k, v in sorted(cnt.items())]
+
+
 _CORE = re.compile(r"^(<)?preflate_rs::(tree_predictor|token_predictor|hash_chain_holder|hash_chain|huffman_calc|add_policy_estimator|process)::")
 
 
@@ -562,11 +612,11 @@ def run(ctx, rep):
                 rep.add(rule, k, True, "", "differs from the reference, announced by the %s version change" % GATE[part])
             else:
                 what = "removed from" if cv is None else ("new in" if rv is None else "changed in")
-                if k in ("thresholds", "arith", "skeleton") and isinstance(rv, list) and isinstance(cv, list):
+                if k in ("thresholds", "arith", "skeleton", "literals") and isinstance(rv, list) and isinstance(cv, list):
                     ra, ca = {json.dumps(a): n for a, n in rv}, {json.dumps(a): n for a, n in cv}
                     gone = ["%s x%d" % (a, ra[a] - ca.get(a, 0)) for a in ra if ra[a] > ca.get(a, 0)]
                     new = ["%s x%d" % (a, ca[a] - ra.get(a, 0)) for a in ca if ca[a] > ra.get(a, 0)]
-                    noun = {"thresholds": "decisions", "arith": "operations with a constant", "skeleton": "decision/indexing elements of the predictor core"}[k]
+                    noun = {"thresholds": "decisions", "arith": "operations with a constant", "skeleton": "decision/indexing elements of the predictor core", "literals": "constants used as plain values"}[k]
                     rv, cv = "%s no longer present: %s" % (noun, gone), "new %s: %s" % (noun, new)
                 rep.add(rule, k, False, "", "%s the format surface while %s is unchanged: stored data of the reference build would be interpreted differently. reference=%s current=%s" % (
                     what, {"wrapper": "COMPRESSED_WRAPPER_VERSION_1", "file": "FILE_VERSION"}[GATE[part]], _short(rv), _short(cv)))
